@@ -415,11 +415,14 @@ def build_harness():
     exe = os.path.join(common.BUILD, "bin", "k12_validate")
     deps = [os.path.join(common.HARNESS, "k12_validate.c"), os.path.join(common.REPO, "lib", "include", "mb_mgr_job_check.h"),
             os.path.join(common.REPO, "lib", "intel-ipsec-mb.h"), os.path.join(common.LIBSO_DIR, "libIPSec_MB.so")]
+    from . import c12_direct_extra
+    inc, nextra = c12_direct_extra.generate()
+    deps.append(inc)
     if os.path.exists(exe) and os.path.getmtime(exe) > max(os.path.getmtime(d) for d in deps if os.path.exists(d)):
         return exe
     if os.path.exists(exe):
         os.remove(exe)
-    return common.build_harness("k12_validate", extra_flags=HARNESS_FLAGS)
+    return common.build_harness("k12_validate", extra_flags=HARNESS_FLAGS + ["-DK12_EXTRA", "-I", os.path.dirname(inc)])
 
 
 def shard_run(cmd_for, files, workers):
@@ -799,7 +802,7 @@ def main(tier, seed):
     if ps.returncode != 0 or not slines:
         broken.append("harness mode s did not run: rc=%d %s" % (ps.returncode, ps.stderr[-200:]))
     pd = sh([exe, "d"], env=common.lib_env(), timeout=900)
-    dlines = [l for l in pd.stdout.splitlines() if l.startswith("D ")]
+    dlines = [l for l in pd.stdout.splitlines() if l.startswith("D ") or l.startswith("DX ")]
     dfail = [l for l in dlines if not l.rstrip().endswith("OK")]
     times["misuse_direct"] = round(time.time() - t1, 1)
     if pm.returncode != 0 or not mlines:
